@@ -18,6 +18,24 @@ CHECKS = {
             "decision tables extracted by path-sensitive abstract interpretation of MIR (no execution)", "DESIGN.md §5 C13"),
 }
 
+TB = ("Trusted: rustc nightly front end and MIR construction, the guard-facts extractor, the abstract interpreter "
+      "(engine/ai.py), the monitor specifications in rules/%s.py (written from the property text). Child evaluations are "
+      "over-approximated as independent PASS/FAIL/SKIP/Err sources.")
+CHECKS["C02"] = ("other",
+    "Monitor automata over the MIR of every status combinator (file, rule, when, type block, query block, CNF lines, "
+    "named-rule clause, rule_status memo, Status::and): at every Ok return the returned status must equal the formula of "
+    "the property over the set of child outcomes; a non-PASS `when` must give SKIP with no body evaluation event; "
+    "start/end_record must be LIFO-balanced and the record closing a function's own context must carry the returned "
+    "status (16 functions with record events). Exhaustive over the abstract state space of each function; not claimed: "
+    "that the printed tree has the right children for arbitrary programs.",
+    TB % "c02", "monitor automata / typestate via abstract interpretation of MIR (no execution)", "DESIGN.md §5 C02")
+CHECKS["C06"] = ("other",
+    "Exit-code tables (constants, evaluate_rule, get_exit_code, TestResult::get_exit_code, update_exit_code, main) decided "
+    "exactly, plus a fold/error-discipline monitor over every command-layer function that returns an exit code: nothing "
+    "wrong => 0, failures only => 19/7, errors only => 5/non-zero, an observed Err never ends in 0 (or 19 for validate). "
+    "Found and repaired two genuine defects (known_findings.txt). Not claimed: clap's flag validation.",
+    TB % "c06", "decision tables + fold monitors via abstract interpretation of MIR (no execution)", "DESIGN.md §5 C06")
+
 NOT_APPLICABLE = {
 }
 
